@@ -73,7 +73,8 @@ Inductive val :=
 | VStruct (method path : string) (url : option (string * mmap))   (* scalar fields of a Request *)
 | VMap (m : mmap)
 | VPar (m : list (string * string))
-| VBody (rest : string)      (* unread bytes of a reader *)
+| VBody (rest : string)      (* unread bytes of an open reader *)
+| VClosed                    (* a reader that was read to its end and closed: later reads fail *)
 | VNil.
 
 Definition field_eqb (a b : field) : bool :=
@@ -156,10 +157,10 @@ Definition gql_stage (own : owner) (g : gql) (s : pst) : list acc * option pst :
   let src :=
     match g_kind g with
     | GQuery => rd s FStruct ++ rd s FPar
-    | GMutation => rd s FStruct ++ (if has_body s then rd s FBody ++ [Wr (pv s FBody) (VBody "")] else [])
+    | GMutation => rd s FStruct ++ (if has_body s then rd s FBody ++ [Wr (pv s FBody) VClosed] else [])
     end in
   let s0 := match g_kind g with
-            | GMutation => if has_body s then {| pv := pv s; px := vset (px s) FBody (VBody "") |} else s
+            | GMutation => if has_body s then {| pv := pv s; px := vset (px s) FBody VClosed |} else s
             | GQuery => s end in
   match g_out g with
   | None => (src, None)
@@ -190,11 +191,14 @@ Definition lb_stage (b : backend) (s : pst) : list acc * pst :=
   let '(a, s1) := wr s FStruct v in
   (rd s FStruct ++ rd s FQry ++ a, s1).
 
-(* http proxy + executor: copies the header values (reads every value slice), reads
+(* A pipeline that consumes a body reads it to its end and closes it (GraphQL mutation:
+   deferred Close; CloneRequest: ReadFrom + Close; http proxy: the executor reads, the proxy
+   closes): one write of VClosed.  The bodies this code allocates itself are NopClosers.
+   http proxy + executor: copies the header values (reads every value slice), reads
    method/URL and the header map, drains the body *)
 Definition http_stage (s : pst) : list acc :=
   rd s FVals ++ rd s FStruct ++ rd s FHdr ++
-  (if has_body s then rd s FBody ++ [Wr (pv s FBody) (VBody "")] else []).
+  (if has_body s then rd s FBody ++ [Wr (pv s FBody) VClosed] else []).
 
 (* request builder: GeneratePath (reads Params), Method = backend method *)
 Definition rb_stage (b : backend) (s : pst) : list acc * pst :=
@@ -229,7 +233,7 @@ Definition deep_clone (own : owner) (st src_site : site) (src_own : owner) (s : 
   let '(ah, c1) := alloc c0 FHdr (Ob own st FHdr) (px s FHdr) in
   let '(ap, c2) := alloc c1 FPar (Ob own st FPar) (px s FPar) in
   if has_body s then
-    let drain := rd s FBody ++ [Wr (pv s FBody) (VBody "")] in
+    let drain := rd s FBody ++ [Wr (pv s FBody) VClosed] in
     let '(ab1, s1) := alloc s FBody (Ob src_own src_site FBody) (px s FBody) in
     let '(aw, s2) := wr s1 FStruct (px s FStruct) in
     let '(ab2, c3) := alloc c2 FBody (Ob own st FBody) (px s FBody) in
